@@ -104,6 +104,17 @@ def lt(a, b):
     return a + margin() < b
 
 
+def Eq(a, b, rtol=1e-9):
+    """numeric equality: exact over the reals when proving; within rounding when replaying on floats"""
+    if isinstance(a, (SymReal, SymBool)) or isinstance(b, (SymReal, SymBool)):
+        return a == b
+    try:
+        fa, fb = float(a), float(b)
+    except (TypeError, ValueError):
+        return a == b
+    return abs(fa - fb) <= rtol * max(1.0, abs(fa), abs(fb))
+
+
 def as_bool_term(x):
     return symx.blift(x)
 
